@@ -969,6 +969,14 @@ pub fn corpus() -> Vec<(&'static str, &'static str, Vec<Op>)> {
     vec![
         // a transaction in block 2, then the sweep reorgs to 1: its trace is still served
         ("trace_survives_reorg", "c01", vec![t_init(), Op::Mine { n: 1, ts: TS0 + 1 }, t_deploy(TS0 + 2, "d1i0"), t_fin(TS0 + 2)]),
+        // a storage slot that goes 7 -> 9 -> 7 in three consecutive blocks (a value flipping back): the sweep reorgs to
+        // every block, also to the one in which the middle value was current
+        ("slot_flips_back", "c01", {
+            let set = |k: u64, v: u64, ts: u64| vec![Op::Call { from_pkscript: PKSCRIPTS[1].into(), to: To::ByInscription("fbtooli0".into()), data: Hx(cd::sstore(u(0), u(v))), enc: Enc::Hex, tail: t_tail(ts, &format!("fb{}i0", k), 2000) }, t_fin(ts)];
+            let mut h = vec![t_init(), t_deploy(TS0 + 1, "fbtooli0"), t_fin(TS0 + 1)];
+            h.extend(set(1, 7, TS0 + 2)); h.extend(set(2, 9, TS0 + 3)); h.extend(set(3, 7, TS0 + 4)); h.extend(set(4, 9, TS0 + 5)); h.extend(set(5, 7, TS0 + 6));
+            h
+        }),
         // genesis by brc20_initialise on an empty database, one more block: the sweep reorgs to 0
         ("genesis_state_lost", "c01", vec![t_init(), Op::Mine { n: 1, ts: TS0 + 1 }]),
         // 30 blocks, back to 20, one block: the sweep tries reorg(11) (= height - 10)
